@@ -88,6 +88,9 @@ def run(ctx, dis=True):
         if e["opname"] in ("TypeInt", "TypeFloat"):
             track_no_panic(ctx, q, S, e, okpaths)
     loader_no_panic(ctx, q)
+    # every generated typed decoder request from MIR (arithmetic on the offset around a failing word request included)
+    import c11
+    ctx.extra["typed_requests_decided_from_mir"] = c11.typed_requests_mir(ctx)
     assemble_index(ctx, q, S)
     disas_constant(ctx, q, S, rp)
     literal_rendering(ctx, q, S, rp)
@@ -462,11 +465,22 @@ def disas_ext_inst(ctx, q, S, rp):
                 continue
             le = c03.le
             glsl = "474c534c" "2e737464" "2e343530" "00000000"
-            words = c03.HEADER + le(6 << 16 | 11) + le(1) + glsl + le(2 << 16 | 19) + le(2) + le(3 << 16 | 33) + le(3) + le(2) + \
-                le(5 << 16 | 54) + le(2) + le(4) + le(0) + le(3) + le(2 << 16 | 248) + le(5) + le(6 << 16 | 12) + le(2) + le(6) + le(1) + le(9999) + le(6) + \
-                le(1 << 16 | 253) + le(1 << 16 | 56)
-            real = rp.ask("load_disassemble %s" % words)
             events = [e for e in r.events if e[0] in ("set", "number")]
+            known = ("number", "known") in events
+            tracked = ("set", "untracked") not in events
+            real, words = {}, ""
+            # witnesses following the path: set imported or not, instruction number in the set's table or not, and several operand counts
+            for number in ((4, 1, 43, 81) if known else (9999,)):
+                for nargs in sorted(set([max(nops - 2, 0), 1, 2, 3, 5])):
+                    args_ = "".join(le(6) for _ in range(nargs))
+                    words = c03.HEADER + (le(6 << 16 | 11) + le(1) + glsl if tracked else "") + le(2 << 16 | 19) + le(2) + le(3 << 16 | 33) + le(3) + le(2) + \
+                        le(5 << 16 | 54) + le(2) + le(4) + le(0) + le(3) + le(2 << 16 | 248) + le(5) + le((5 + nargs) << 16 | 12) + le(2) + le(6) + le(1) + le(number) + args_ + \
+                        le(1 << 16 | 253) + le(1 << 16 | 56)
+                    real = rp.ask("load_disassemble %s" % words)
+                    if "panic" in real:
+                        break
+                if "panic" in real:
+                    break
             if "panic" in real:
                 ctx.ob(tag, False, "%s: %s" % (events, real["panic"]))
                 ctx.violation("disassemble/panic/OpExtInst-%s" % "-".join(e[1] for e in events),
